@@ -236,9 +236,7 @@ def run(ctx):
     C10_helpers.zigzag(ctx, "C02.R8")
     C10_helpers.varint_parse_form(ctx, "C02.R8")
     C03.unit_table_check(ctx, "C02.R8")             # the terminator CString writes is the terminator it looks for
-    sub = _Ctx("C15", ctx.tier, ctx.root, model=ctx.model)
-    sub._summ = summariser(ctx)
-    C15.run(sub)
+    sub = shared_run(ctx, C15, prop="C15")
     for e in sub.errors:
         ctx.error("shared C15 rules: " + e)
     for o in sub.obligations:
@@ -260,9 +258,7 @@ def run(ctx):
     # RawCopy parsed is re-encoded from its raw `data` before its `value` (C14.R2), so that the rebuilt bytes are the parsed ones
     from . import C01, C10, C09, C07, C08, C14
     for mod, rules in ((C01, ("C01.R2", "C01.R3")), (C10, ("C10.R4",)), (C09, ("C09.R3", "C09.R4")), (C07, ("C07.R1",)), (C08, ("C08.R2",)), (C14, ("C14.R2",))):
-        sub = _Ctx(mod.__name__.split(".")[-1], ctx.tier, ctx.root, model=ctx.model)
-        sub._summ = summariser(ctx)
-        mod.run(sub)
+        sub = shared_run(ctx, mod)
         for e in sub.errors:
             ctx.error("shared %s rules: %s" % (sub.prop, e))
         for o in sub.obligations:
